@@ -107,6 +107,9 @@ func (p *Prov) walkerLoops(fn *ssa.Function) []*IterCheck {
 			switch {
 			case isAcc:
 				ic.Mode = "append"
+			case o == l.Coll && l.Kind == "omap":
+				// selective rewrite of members of the iterated document under their own key
+				ic.Mode = "in-place-map"
 			case o == l.Coll:
 				ic.Mode = "in-place"
 			case l.Kind == "omap":
@@ -303,6 +306,10 @@ func (ic *IterCheck) noteSink(p *Prov, in ssa.Instruction, key, val ssa.Value) {
 			ic.KeyProblems = append(ic.KeyProblems, fmt.Sprintf("%s at %s", why, p.c.InstrPos(in)))
 		}
 	case "append":
+	case "in-place-map":
+		if !p.isElemKey(key, l) {
+			ic.KeyProblems = append(ic.KeyProblems, "member stored under a key other than the current element's key at "+p.c.InstrPos(in))
+		}
 	default:
 		if key != l.Idx {
 			ic.KeyProblems = append(ic.KeyProblems, "element stored at an index other than the loop index at "+p.c.InstrPos(in))
@@ -359,6 +366,12 @@ func (p *Prov) isElemKey(v ssa.Value, l *IterLoop) bool {
 // zeroPathJustified: an iteration path without a store is acceptable only in the
 // in-place walker and only when the element is nil (it stays nil).
 func (p *Prov) zeroPathJustified(ic *IterCheck, z zeroPath) bool {
+	if ic.Mode == "in-place-map" && ic.Fn == p.cmdWalker() {
+		// the command walker passing over the members of the command document: a member it
+		// does not rewrite stays as it is (which members must be rewritten is C01-R1's question,
+		// that the others stay is C04-R1's)
+		return true
+	}
 	if ic.Mode != "in-place" {
 		return false
 	}
